@@ -12,16 +12,16 @@ from mc.props.c03 import same_node, same_value, shape
 from mc.props.c04 import reach
 
 META = {
-    "rule": "rules = path x value-kind condition tree; product factored as (every path x 8 conditions) + "
+    "rule": "rules = path x value-kind condition tree; product factored as (every path x 9 conditions) + "
             "(8 paths x every condition) x every document; a case is one (rule, document) pair; non-trivial = "
             "the path selects at least one node (rule tested); distinct by construction",
     "assumptions": ["wording of failure reasons is not judged (only: non-empty tuple of str)",
                     "conditions are from the well-typed alphabet (exact oracle); leaf meanings are C01's business"],
     "bounds": {
-        "quick": {"paths": "length<=1 over 40 parts + length 2 over 12 parts", "conditions": "43 leaves + 114 trees (depth<=2 over 6 leaves)",
-                  "documents": "F-struct(3) + F-type"},
-        "thorough": {"paths": "length<=1 over 40 parts + length 2 over 20 parts", "conditions": "same",
-                     "documents": "F-struct(4) + F-type"},
+        "quick": {"paths": "length<=1 over 40 parts + length 2 over 12 parts + length 3 over 7 parts", "conditions": "43 leaves + 114 trees (depth<=2 over 6 leaves)",
+                  "documents": "F-struct(3) + F-type + F-deep"},
+        "thorough": {"paths": "length<=1 over 40 parts + length 2 over 20 parts + length 3 over 7 parts", "conditions": "same",
+                     "documents": "F-struct(4) + F-type + F-deep"},
     },
 }
 
@@ -44,6 +44,7 @@ LEAVES = [
     L("ValueDataType", "equal_to", dict), L("ValueDataType", "not_equal_to", str),
     L("ValueDataType", "in_", [int, list]), L("ValueDataType", "not_in", [dict, type(None)]),
     L("ValueDataType", "equal_to", bool), L("ValueDataType", "in_", [str, float]),
+    L("Value", "is_instance", bool), L("Value", "is_instance", float), L("Value", "is_instance", int),
 ]
 POOL6 = [T.NULL, LEAVES[0], LEAVES[2], LEAVES[13], LEAVES[32], LEAVES[37]]
 
@@ -61,7 +62,7 @@ def trees():
 
 
 CONDS = LEAVES + trees()
-CONDS8 = [LEAVES[0], LEAVES[2], LEAVES[13], LEAVES[32], LEAVES[37], LEAVES[30],
+CONDS8 = [LEAVES[0], LEAVES[2], LEAVES[13], LEAVES[32], LEAVES[37], LEAVES[30], LEAVES[43],
           ("xor", LEAVES[13], LEAVES[0]), ("or", ("and", LEAVES[0], LEAVES[2]), LEAVES[37])]
 PATHS8 = [T.path(()), T.path((gen.PRIMS[0],)), T.path((gen.PRIMS[3],)), T.path((gen.BARE[2],)),
           T.path((gen.BARE[0], gen.BARE[1])), T.path((gen.PRIMS[0], gen.LISTS[3])),
@@ -71,13 +72,14 @@ PATHS8 = [T.path(()), T.path((gen.PRIMS[0],)), T.path((gen.PRIMS[3],)), T.path((
 def rules(tier):
     sub = gen.PARTS12 if tier == "quick" else gen.PARTS20
     ps = list(gen.paths(1, gen.PARTS)) + [p for p in gen.paths(2, sub) if len(p[1]) == 2]
+    ps += [p for p in gen.paths(3, gen.PARTS7) if len(p[1]) == 3]
     out = [T.rule(p, c) for p in ps for c in CONDS8]
     out += [T.rule(p, c) for p in PATHS8 for c in CONDS]
     return out
 
 
 def family(tier):
-    return (gen.docs_struct(3) if tier == "quick" else gen.docs_struct(4)) + gen.docs_type2()
+    return (gen.docs_struct(3) if tier == "quick" else gen.docs_struct(4)) + gen.docs_type2() + gen.docs_deep()
 
 
 _rl = {}
@@ -87,6 +89,11 @@ def _rules(tier):
     if tier not in _rl:
         _rl[tier] = rules(tier)
     return _rl[tier]
+
+
+def prepare(tier):
+    _rules(tier)
+    family(tier)
 
 
 def units(tier):
@@ -101,7 +108,9 @@ def run_unit(unit, tier):
         r = build(res, rs[ri], docs[0])
         if r is None:
             continue
-        for di, doc in enumerate(docs):
+        # rules with paths of length >= 3 run on the F-deep + F-type documents only
+        use = docs if len(rs[ri][1][1]) <= 2 else gen.docs_deep() + gen.docs_type2()
+        for di, doc in enumerate(use):
             check_case(res, rs[ri], r, doc, key=(ri, di))
     res.sample({"rule": rs[unit[0]], "doc": docs[0]})
     return res
